@@ -343,6 +343,12 @@ func (x *prioExec) injectStop(op POp) {
 	if !x.errClosed {
 		x.fail("C16", "stop-not-terminated", "%s returned but Err() is not closed", op.K)
 	}
+	// C19: Stop() has returned / Err() is closed - whatever the discipline started is gone
+	// (looked at 1us virtual later, like every census: what is still there then is blocked or
+	// sleeping, e.g. a Handle call that was left behind and is still cleaning up)
+	if left := bubbleCensus(x.ctl); left != "" {
+		x.fail("C19", "leak-after-stop:"+x.sc.Ver+":"+op.K, "%s has completed but goroutine(s) started by the discipline remain (1us virtual later): %s", op.K, firstLines(left, 10))
+	}
 	if n := x.runningAtStopReturn.Load(); n > 0 {
 		x.fail("C16", "handle-running-when-stop-returned", "a Stop() call returned while %d Handle call(s) were still running (two overlapping Stop() calls: %v)", n, variant == 1)
 	}
